@@ -37,6 +37,8 @@ pub struct Stats {
     pub nontrivial_runs: u64,
     pub sim_time_ns: u128,
     pub tape_len_total: u64,
+    /// Hits of open known findings (id -> count); such hits do not end the run.
+    pub known_hits: BTreeMap<String, u64>,
 }
 
 impl Stats {
@@ -62,6 +64,9 @@ impl Stats {
         self.nontrivial_runs += o.nontrivial_runs;
         self.sim_time_ns += o.sim_time_ns;
         self.tape_len_total += o.tape_len_total;
+        for (k, v) in o.known_hits {
+            *self.known_hits.entry(k).or_insert(0) += v;
+        }
     }
 }
 
@@ -82,9 +87,22 @@ pub struct Ctx<'a> {
     pub hash: u64,
     /// A sample description of this run, if the engine provides one (kept for low run indices).
     pub sample: Option<Value>,
+    pub known: Arc<Vec<Known>>,
 }
 
 impl<'a> Ctx<'a> {
+    /// Reports a violation unless it is a listed, still open known finding; then it is counted
+    /// and the run goes on, so that any other violation is still found.
+    pub fn report(&mut self, v: Violation) -> Result<(), Violation> {
+        let known = self.known.clone();
+        match known.iter().find(|k| k.property == v.prop && k.oracle == v.oracle && v.msg.contains(&k.contains)) {
+            Some(k) => {
+                *self.stats.known_hits.entry(k.id.clone()).or_insert(0) += 1;
+                Ok(())
+            }
+            None => Err(v),
+        }
+    }
     pub fn ev(&mut self, tag: &'static str, a: u64, b: u64) {
         self.hash = mix(mix(mix(self.hash, hash_str(tag)), a), b);
         if let Some(t) = &mut self.trace {
@@ -198,6 +216,7 @@ pub fn exec(
         trace: if trace { Some(Vec::new()) } else { None },
         hash: 0x1234_5678_9abc_def0,
         sample: None,
+        known: KNOWN.get_or_init(|| Arc::new(load_known())).clone(),
     };
     let outcome = catch(|| (engine.run)(&mut ctx))
         .map_err(|p| format!("harness panic in engine {} run {}: {}", engine.name, run_index, p))?;
@@ -582,7 +601,10 @@ pub fn write_evidence(prop: &str, v: &Value) -> Result<(), String> {
 
 /// Known findings: `/verif/known_findings.json`. Only entries with status "open" suppress
 /// anything; "fixed" entries are documentation and suppress nothing.
+pub static KNOWN: std::sync::OnceLock<Arc<Vec<Known>>> = std::sync::OnceLock::new();
+
 pub struct Known {
+    pub id: String,
     pub property: String,
     pub oracle: String,
     pub contains: String,
@@ -604,6 +626,7 @@ pub fn load_known() -> Vec<Known> {
                 continue;
             }
             out.push(Known {
+                id: e["id"].as_str().unwrap_or("?").to_string(),
                 property: e["property"].as_str().unwrap_or("").to_string(),
                 oracle: e["oracle"].as_str().unwrap_or("").to_string(),
                 contains: e["message_contains"].as_str().unwrap_or("").to_string(),
